@@ -1039,6 +1039,7 @@ impl<'a, 'b> Gen<'a, 'b> {
             if refac { 6 } else { 2 },            // 17 method call statement
             if luau && self.o.types { 1 } else { 0 }, // 18 type declaration
             if nested_ok { 1 } else { 0 },        // 19 recursion template
+            1,                                    // 20 tables with string keys that are not identifiers
         ];
         let choice = self.t.weighted(&w);
         Some(match choice {
@@ -1163,6 +1164,7 @@ impl<'a, 'b> Gen<'a, 'b> {
                 Stmt::Local { is_const: false, names: vec![Binding::new(name)], values: vec![callg("pcall", vec![f])] }
             }
             17 => self.method_call_stmt(ed)?,
+            20 => self.odd_key_stmt(),
             18 => {
                 self.stat("type_decl");
                 self.counter += 1;
@@ -1598,6 +1600,23 @@ impl<'a, 'b> Gen<'a, 'b> {
         let n = self.t.choose(3);
         let args = self.expr_list(n, d);
         Stmt::Call(callg(["probe", "probe0", "probe2", "print"][self.t.choose(4)], args))
+    }
+
+    /// tables keyed by strings that are not identifiers (non-ASCII letters, keywords, spaces, digits first):
+    /// `convert_index_to_field` must leave them in brackets
+    fn odd_key_stmt(&mut self) -> Stmt {
+        self.stat("odd_string_keys");
+        self.counter += 1;
+        let name = format!("u{}", self.counter);
+        let pool = ["\u{e9}", "gr\u{f6}\u{df}e", "\u{540d}\u{524d}", "end", "a b", "1st", "", "a-b", "\u{3b1}1"];
+        let k1 = pool[self.t.choose(pool.len())];
+        let k2 = pool[self.t.choose(pool.len())];
+        let ctor = Expr::Table(vec![TableItem::Keyed(s(k1), num(1.0)), TableItem::Keyed(s("ok"), num(2.0))]);
+        Stmt::Do(Block::new(vec![
+            Stmt::Local { is_const: false, names: vec![Binding::new(name.clone())], values: vec![ctor] },
+            Stmt::Assign { targets: vec![index(nm(&name), s(k2))], values: vec![num(3.0)] },
+            Stmt::Call(callg("emit", vec![index(nm(&name), s(k1)), index(nm(&name), s(k2)), index(nm(&name), s("ok"))])),
+        ]))
     }
 
     fn method_call_stmt(&mut self, d: usize) -> Option<Stmt> {
